@@ -108,6 +108,41 @@ class LegacySum(p.Sum):
     mapper_method = "map_legacy_sum"
 
 
+@expr_dataclass()
+class TaggedCSE(p.CommonSubexpression):
+    """a common-subexpression subclass with an extra constructor property, forwarded through
+    identity-style mappers by the documented get_extra_properties() hook"""
+    tag: str = ""
+
+    def get_extra_properties(self):
+        return {"tag": self.tag}
+
+
+# undecorated subclasses of stock operator nodes: same fields, same handler, same meaning
+class SubFloorDiv(p.FloorDiv):
+    pass
+
+
+class SubRemainder(p.Remainder):
+    pass
+
+
+class SubQuotient(p.Quotient):
+    pass
+
+
+class SubProduct(p.Product):
+    pass
+
+
+class SubSum(p.Sum):
+    pass
+
+
+class SubPower(p.Power):
+    pass
+
+
 class LegacyMid(p.Variable):
     """legacy subclass that adds nothing (like the in-tree MultiVectorVariable) ..."""
     mapper_method = "map_legacy_mid"
